@@ -148,7 +148,16 @@ def processLine (ds : DState) (line : String) : DState × List String :=
       let init := sortMsgs ((arr j "init").map msgOfJson)
       -- a store built from configuration text: every limit / retention value the text states must be the value in force
       let c := cfgOfJson (obj j "cfg")
-      let wiring : List String :=
+      let cmp := fun (which : String) (k : Cfg) =>
+        let bad := (if k.maxDepth != c.maxDepth then ["max_depth"] else []) ++ (if k.dropOldest != c.dropOldest then ["drop_policy"] else []) ++
+          (if k.retention != c.retention then ["queue_retention.max_age"] else []) ++ (if k.pruneInterval != c.pruneInterval then ["prune_interval"] else []) ++
+          (if k.deliveredRet != c.deliveredRet then ["delivered_retention.max_age"] else []) ++ (if k.dlqRet != c.dlqRet then ["dlq_retention.max_age"] else []) ++
+          (if k.dlqDepth != c.dlqDepth then ["dlq_retention.max_depth"] else [])
+        if bad.isEmpty then [] else
+          ["C02", "C12", "C13"].map (fun p => s!"PROP {p} trace={nat j "trace"} step=0 configured-value-not-in-force-{which} {bad} stated={repr c} {which}={repr k}")
+      let wiringStore : List String :=
+        if !(has j "inStore") || (obj j "inStore").isNull then [] else cmp "in-the-store" (cfgOfJson (obj j "inStore"))
+      let wiring : List String := wiringStore ++
         if !(has j "compiled") || (obj j "compiled").isNull then [] else
         let k := cfgOfJson (obj j "compiled")
         let bad := (if k.maxDepth != c.maxDepth then ["max_depth"] else []) ++ (if k.dropOldest != c.dropOldest then ["drop_policy"] else []) ++
